@@ -13,6 +13,7 @@ import ButlerModel.Driver.C10
 import ButlerModel.Driver.C07
 import ButlerModel.Driver.C09
 import ButlerModel.Driver.C01
+import ButlerModel.Driver.C08
 /-! Line-protocol driver: one request per line on stdin, one reply per line on stdout.
 The first token selects the model; stateful models keep their state in `DState`. -/
 
@@ -26,6 +27,7 @@ structure DState where
   repo : Registry.Repo := {}
   art : Artifacts.S := {}
   store : Store.S := {}
+  crash : Driver.C08.St := {}
 
 def step (st : DState) (line : String) : DState × String :=
   let toks := (line.splitOn " ").filter (· ≠ "")
@@ -44,6 +46,7 @@ def step (st : DState) (line : String) : DState × String :=
   | "did" :: rest => let (c, out) := Driver.C13.handle st.did rest; ({ st with did := c }, out)
   | "reg" :: rest => let (c, out) := Driver.C02.handle st.reg rest; ({ st with reg := c }, out)
   | "path" :: rest => (st, Driver.C09.handlePath rest)
+  | "crash" :: rest => let (c, out) := Driver.C08.handle st.crash rest; ({ st with crash := c }, out)
   | "st" :: rest => let (c, out) := Driver.C01.handle st.store rest; ({ st with store := c }, out)
   | "art" :: rest => let (c, out) := Driver.C09.handle st.art rest; ({ st with art := c }, out)
   | "repo" :: rest => let (c, out) := Driver.C10.handle st.repo rest; ({ st with repo := c }, out)
